@@ -766,6 +766,11 @@ pub struct RunResult {
     /// VM instructions begun after the first timeout fired (a fired timeout ends the run: the
     /// error travels to the host without any further instruction)
     pub instructions_after_timeout: u64,
+    /// the instance's exports map is no longer the one it had before the run
+    pub exports_replaced: bool,
+    /// (iterations, result) of the longer terminating probe
+    pub long_probe: Option<(u64, Result<String, String>)>,
+    pub long_probe_duration: u64,
 }
 
 pub struct Scratch {
@@ -822,6 +827,7 @@ pub fn execute(sc: &Scenario, limited: bool, clock: &Rc<VClock>, scratch: &Scrat
         builder_order_seed: sc.limit_ns ^ (sc.source.len() as u64) << 20 ^ sc.profile.seed,
     });
     host.log.lock().unwrap().slow_ns = sc.slow_ns;
+    let exports_before = host.koto.exports().clone();
 
     let script_path = if sc.modules.is_empty() {
         None
@@ -882,14 +888,21 @@ pub fn execute(sc: &Scenario, limited: bool, clock: &Rc<VClock>, scratch: &Scrat
     // usable afterwards? (only meaningful when the run came back by itself)
     if limited && out.result.is_some() {
         clock.record_entries.set(false);
-        clock.reset(CostProfile::constant(1), 1, 1_000_000);
-        host.koto.exports_mut().clear();
+        // (virtual time goes on: the probes are later operations on the same instance)
+        clock.reset_keep_time(CostProfile::constant(1), 1, 1_000_000, sc.limit_ns / 2);
+        let probe_start = clock.now_true();
+        // the exports map of the instance must still be the one it had before the run
+        out.exports_replaced = !host.koto.exports().is_same_instance(&exports_before);
+        if sc.source.contains("@main") || sc.source.contains("@test") {
+            // the scenario's own exported @test / @main persist by design and would run again
+            host.koto.exports_mut().clear();
+        }
         let koto = &mut host.koto;
         let probe = catch_unwind(AssertUnwindSafe(|| {
             let r = koto.compile_and_run(PROBE);
             host::render_result(koto, r)
         }));
-        out.probe_duration = clock.now_true();
+        out.probe_duration = clock.now_true() - probe_start;
         out.probe = Some(match probe {
             Ok(r) => r,
             Err(_) => {
@@ -900,6 +913,34 @@ pub fn execute(sc: &Scenario, limited: bool, clock: &Rc<VClock>, scratch: &Scrat
                 ))
             }
         });
+        // a second, longer probe: a terminating loop that lasts a few deadline-check intervals
+        // of the limit (about 1/30 of it), so that state left behind in the deadline machinery
+        // has a chance to act on it
+        if matches!(out.probe, Some(Ok(_))) {
+            let k = (sc.limit_ns / 160).clamp(10, 60_000);
+            let text = format!("n = 0\nfor i in 0..{k}\n  n += 1\nn\n");
+            clock.reset_keep_time(CostProfile::constant(1), 1, 2_000_000, sc.limit_ns / 2);
+            let long_probe_start = clock.now_true();
+            let koto = &mut host.koto;
+            let probe = catch_unwind(AssertUnwindSafe(|| {
+                let r = koto.compile_and_run(&text);
+                host::render_result(koto, r)
+            }));
+            out.long_probe_duration = clock.now_true() - long_probe_start;
+            out.long_probe = Some((
+                k,
+                match probe {
+                    Ok(r) => r,
+                    Err(_) => {
+                        clock.abandon();
+                        Err(format!(
+                            "PANIC in probe: {}",
+                            host::take_last_panic().unwrap_or_default()
+                        ))
+                    }
+                },
+            ));
+        }
     }
     clock.record_entries.set(false);
     out
@@ -1076,6 +1117,12 @@ pub fn check(sc: &Scenario, r: &RunResult, reference: Option<&RunResult>) -> Opt
     }
 
     // clause 5: usable afterwards
+    if r.exports_replaced {
+        return viol(
+            "unusable-after-timeout",
+            "the instance's exports map was replaced by another map (functions exported before the run can no longer be called)".into(),
+        );
+    }
     if let Some(p) = &r.probe {
         let ok = matches!(p, Ok(s) if s == PROBE_EXPECT);
         let g = if sc.granularity <= 1 { 0 } else { sc.granularity };
@@ -1085,6 +1132,23 @@ pub fn check(sc: &Scenario, r: &RunResult, reference: Option<&RunResult>) -> Opt
             return viol(
                 "unusable-after-timeout",
                 format!("probe gave {:?}", p.as_ref().map_err(|e| host::first_line(e))),
+            );
+        }
+    }
+    if let Some((k, p)) = &r.long_probe {
+        let ok = matches!(p, Ok(s) if *s == k.to_string());
+        let g = if sc.granularity <= 1 { 0 } else { sc.granularity };
+        let probe_may_time_out = r.long_probe_duration + g >= sc.limit_ns;
+        let timed_out = matches!(p, Err(e) if is_timeout_text(e));
+        if !ok && !(probe_may_time_out && timed_out) {
+            return viol(
+                "unusable-after-timeout",
+                format!(
+                    "a terminating loop of {k} iterations ({} ns of a {} ns limit) run afterwards gave {:?}",
+                    r.long_probe_duration,
+                    sc.limit_ns,
+                    p.as_ref().map_err(|e| host::first_line(e))
+                ),
             );
         }
     }
